@@ -783,11 +783,13 @@ fn main() {
         cases.push(Case::from_json(&v["input"]));
     } else {
         // regression corpus first: the witnesses of the repaired defects D3 (radius token 240 s after
-        // expiry, asked by a radius server), D12 (code exchanged 10 s after expiry), D30-style instant
+        // expiry, asked by a radius server), D12 (code exchanged 10 s after expiry), D30-style instant,
         cases.push(Case { surface: "radius_as_server".into(), vf: None, ex: Some(-240 * NS), sub_ns: 0 });
         cases.push(Case { surface: "oauth2_code_exchange".into(), vf: None, ex: Some(-10 * NS), sub_ns: 0 });
         cases.push(Case { surface: "bearer_uat".into(), vf: None, ex: Some(0), sub_ns: 0 });
+        // D41 (LDAP bind with a login / api token of an account outside its window)
         cases.push(Case { surface: "ldap_bind_uat".into(), vf: None, ex: Some(-DAY), sub_ns: 0 });
+        cases.push(Case { surface: "ldap_bind_apit".into(), vf: Some(DAY), ex: None, sub_ns: 0 });
         // exhaustive grid of edge offsets, at a whole second and at a sub-second instant
         let subs: Vec<i128> = if args.thorough() { vec![0, 1, 500_000_000, 999_999_999] } else { vec![0] };
         cases.extend(grid(&all, &subs));
